@@ -52,6 +52,20 @@ CHECKS["C04"] = dict(
     tech="Coq proof over a finite kernel-swept window + unbounded guard lemmas + differential correspondence/oracle sweep",
     ref="3 C04")
 
+CHECKS["C05"] = dict(
+    text="Theorem C05_eval (Props/C05.v): for every symbol table and every expression tree (unbounded, induction) the evaluator model "
+         "returns exactly the value the documented operator table defines (Spec/ExprSpec.v: i64 arithmetic, 0/1 comparisons, ~ = "
+         "complement, truncating / and %, byte/word selectors, exp2) and fails exactly where it says the build must fail; "
+         "C05_precedence_table: the operator table regenerated from the grammar source places all 18+3 operators on the documented "
+         "levels. Tie: text -> AST -> value compared with document::expr / Expr::run on the full operator x boundary grid, all "
+         "operator-pair nestings, random trees in minimal/blank/redundant-parenthesis renderings, hostile and mutated texts. "
+         "Partial: the character-level round trip 'documented-minimal rendering parses back to the tree' is prototyped "
+         "(notes/proto/CharClimb.v) but not yet instantiated for the real tables; that half rests on correspondence.",
+    note=BASE + " Modelled rather than verified: Expr::run (Model/Eval.v), the peg precedence-climbing algorithm (Model/Climb.v, "
+         "Model/Grammar.v); log2 and page are outside the specification.",
+    tech="Coq proof (structural induction) for evaluation + regenerated precedence table + differential correspondence for parsing",
+    ref="3 C05")
+
 NOT_APPLICABLE = {}
 
 PENDING = ("claimed in DESIGN.md, machinery not built yet in this commit; listed here so that nothing unbuilt is claimed "
